@@ -86,3 +86,51 @@ pub(crate) fn any_class() -> Class {
     kani::assume(c < Class::LEN);
     Class(c)
 }
+
+// ---------------------------------------------------------------------------------------------
+// Ghost "kind" policy for the allocator-level (L2) obligations: every policy whose verdict kind
+// (Match / Demote / Steal / Invalid) depends on the two classes only and whose Match priority is
+// an arbitrary three-level function of the free count with arbitrary thresholds. All policies of
+// the repository (simple, movable, the zeroed policy of the integration tests, the eval config)
+// have this shape. KIND is a symbolic 8x8 table chosen by the harness.
+// ---------------------------------------------------------------------------------------------
+pub(crate) mod kpolicy {
+    use crate::{Class, Policy};
+    pub static mut KIND: [[u8; 8]; 8] = [[0; 8]; 8];
+    pub static mut PRIO: [u8; 3] = [0; 3];
+    pub static mut THRESH: [usize; 2] = [0; 2];
+    /// ghost log for C13: KIND answers given during the current call
+    pub fn init(never_invalid: bool) {
+        let k: [[u8; 8]; 8] = kani::any();
+        let mut a = 0;
+        while a < 8 {
+            let mut b = 0;
+            while b < 8 {
+                kani::assume(k[a][b] < 4 && !(never_invalid && k[a][b] == 3));
+                b += 1;
+            }
+            // a usable policy rates a tree of the requested class itself as a match
+            kani::assume(k[a][a] == 0);
+            a += 1;
+        }
+        unsafe {
+            KIND = k;
+            PRIO = kani::any();
+            THRESH = kani::any();
+        }
+    }
+    pub fn kind(req: Class, tgt: Class) -> u8 {
+        unsafe { KIND[(req.0 & 7) as usize][(tgt.0 & 7) as usize] }
+    }
+    pub fn policy(req: Class, tgt: Class, free: usize) -> Policy {
+        match kind(req, tgt) {
+            0 => {
+                let (p, t) = unsafe { (PRIO, THRESH) };
+                Policy::Match(if free >= t[0] { p[0] } else if free >= t[1] { p[1] } else { p[2] })
+            }
+            1 => Policy::Demote,
+            2 => Policy::Steal,
+            _ => Policy::Invalid,
+        }
+    }
+}
